@@ -133,8 +133,15 @@ def gen_formation(rng):
             a, b = rng.sample(range(len(protos)), 2)
             pid, _e, core, prod = protos[b]
             protos[b] = (pid, protos[a][1], core if rng.random() < 0.5 else protos[a][2], prod)
+            if rng.random() < 0.4 and [x[:2] for x in protos[b][2]] != [x[:2] for x in protos[a][2]]:
+                # ... and with the SAME product but another core (class same_product_equal_coordinates_member_order,
+                # repaired: _ordered separates them by the core)
+                protos[b] = protos[b][:3] + (protos[a][3],)
         # the core must lie inside the extent
         ok = all(len(e) == 1 and len(c) == 1 and e[0][0] <= c[0][0] and c[0][1] <= e[0][1] for _p, e, c, _q in protos)
+        # indistinguishable protoclusters (same coordinates, product and core) do not come out of one detection run
+        keys = [([x[:2] for x in e], [x[:2] for x in c], q) for _p, e, c, q in protos]
+        ok = ok and all(keys[i] != keys[j] for i in range(len(keys)) for j in range(i))
         if ok:
             config["protos"] = protos
     order = list(range(len(config["protos"])))
@@ -154,7 +161,7 @@ def gen_unique(rng):
     for i in range(count):
         r = rng.random()
         if protos and r < 0.2:
-            start, end, _ = rng.choice(protos)          # identical coordinates
+            start, end = rng.choice(protos)[:2]         # identical coordinates
         elif protos and r < 0.4:
             start = rng.choice(protos)[0]                # equal start
             end = (start + rng.randint(1, units // 2) * grid)
@@ -176,13 +183,24 @@ def gen_unique(rng):
         if crossing and end > n:
             end = n
         product = rng.randrange(n_products)
-        if (start, end, product) in [tuple(p) for p in protos]:
-            # indistinguishable protoclusters (same coordinates and product) do not come out of one detection run
-            free = [q for q in range(count) if (start, end, q) not in [tuple(p) for p in protos]]
-            product = rng.choice(free)
-        protos.append((start, end, product))
-    if crossing and not any(e < s for s, e, _ in protos):
-        protos[0] = ((units - 2) * grid, 2 * grid, protos[0][2])
+        core = None
+        if (start, end, product) in [tuple(p[:3]) for p in protos]:
+            used = [tuple(p[3]) if p[3] else (p[0], p[1]) for p in protos if tuple(p[:3]) == (start, end, product)]
+            free_cores = [(a, b) for a in range(start, end, grid) for b in range(a + grid, end + 1, grid)
+                          if (a, b) not in used] if start < end and not crossing else []
+            if free_cores and rng.random() < 0.6:
+                # same coordinates and product, another core (two protoclusters of one rule whose neighbourhoods are
+                # clipped at both ends of a short record): separated by (core_start, core_end) since the repair; only in
+                # regions that do not cross the origin - the key of the origin-crossing branch ends with the product,
+                # see the guard of C17_unique_crossing_perm
+                core = rng.choice(free_cores)
+            else:
+                # indistinguishable protoclusters (same coordinates, product and core) do not come out of one detection run
+                free = [q for q in range(count) if (start, end, q) not in [tuple(p[:3]) for p in protos]]
+                product = rng.choice(free)
+        protos.append((start, end, product, core))
+    if crossing and not any(p[1] < p[0] for p in protos):
+        protos[0] = ((units - 2) * grid, 2 * grid, protos[0][2], None)
     # candidate clusters: every protocluster in at least one; first candidate holds them all when crossing
     ids = list(range(count))
     groups = [ids] if crossing or rng.random() < 0.5 else []
@@ -405,7 +423,8 @@ def child_unique(_fn, args, rng, keep):
     from antismash.common.secmet.features.candidate_cluster import CandidateClusterKind
     from antismash.common.secmet.locations import FeatureLocation, CompoundLocation
     n, crossing, specs, groups = args["n"], args["crossing"], args["protos"], args["groups"]
-    products = sorted({p for _s, _e, p in specs})
+    specs = [tuple(spec) + (None,) * (4 - len(spec)) for spec in specs]
+    products = sorted({spec[2] for spec in specs})
 
     class LaidOutProtocluster(Protocluster):  # pylint: disable=too-few-public-methods
         __slots__ = ["vid"]
@@ -420,8 +439,9 @@ def child_unique(_fn, args, rng, keep):
     try:
         for i in creation:
             perturb(rng, keep)
-            start, end, prod = specs[i]
-            proto = LaidOutProtocluster(mk(start, end), mk(start, end), tool="t", product=f"p{products.index(prod):02d}",
+            start, end, prod, core = specs[i]
+            core_loc = mk(start, end) if not core else mk(core[0], core[1])
+            proto = LaidOutProtocluster(core_loc, mk(start, end), tool="t", product=f"p{products.index(prod):02d}",
                                         cutoff=1, neighbourhood_range=0, detection_rule="r")
             proto.vid = i
             made[i] = proto
@@ -439,14 +459,15 @@ def child_unique(_fn, args, rng, keep):
         clusters.update(cand.protoclusters)
     observed = list(clusters)
     is_crossing = bool(region.crosses_origin())
-    if not is_crossing and any(e < s for s, e, _ in specs):
+    if not is_crossing and any(spec[1] < spec[0] for spec in specs):
         # a region covering the whole record holding origin-crossing protoclusters: the branch for regions that do
         # not cross the origin then compares bridging locations, which the model of that branch does not cover
         return [], {"skipped": "whole_record_region_with_bridging_protoclusters"}
     length = int(region.location.parts[0].end) if is_crossing else n
     flat = [PROP, 5, int(is_crossing), length, len(observed)]
     for proto in observed:
-        flat += [proto.vid, int(proto.start), int(proto.end), len(proto.location), int(proto.product[1:])]
+        flat += [proto.vid, int(proto.start), int(proto.end), len(proto.location), int(proto.product[1:]),
+                 int(proto.core_start), int(proto.core_end)]
     try:
         out_list = region.get_unique_protoclusters()
         ids = [p.vid for p in out_list]
@@ -558,7 +579,8 @@ def plan(tier):
     return {1: 6000, 2: 6000, 3: 1800, 4: 4500, 5: 4500, 6: 2000, 7: 1200}, list(range(0, 18))
 
 
-# the fixed witnesses of the recorded findings (run first, every time)
+# the fixed witnesses of the findings C17-K1..K3 (all three repaired in the code; regression corpus, run first, every time)
+# plus the same-product / other-core variants of K1 and K2
 WITNESS_UNIQUE = {"fn": 5, "args": {"n": 5000, "crossing": False,
                                     "protos": [(1000, 2000, 0), (1000, 2000, 1), (1500, 3000, 2)], "groups": [[0, 1, 2]]}}
 WITNESS_SINGLES = {"fn": 4, "args": {"config": {"n": 400, "circular": False, "genes": [],
@@ -573,7 +595,16 @@ WITNESS_SAME_PRODUCT = {"fn": 3, "args": {
     "genes": [["g1", [300, 390], 1], ["g3", [1390, 4390], -1], ["g2", [1390, 4390], 1], ["g4", [6390, 9390], 1],
               ["g5", [9390, 12390], 1], ["g0", [12391, 12691], -1]],
     "hits": {"g1": [0, 1], "g3": [0], "g2": [0, 1], "g4": [1], "g5": [0, 1], "g0": [0, 1]}}}
-WITNESSES = [WITNESS_UNIQUE, WITNESS_SINGLES, WITNESS_SAME_PRODUCT]
+WITNESS_UNIQUE_CORE = {"fn": 5, "args": {"n": 5000, "crossing": False,
+                                         "protos": [(1000, 2000, 0, (1100, 1200)), (1000, 2000, 0, (1700, 1800)),
+                                                    (1000, 2000, 0, (1100, 1300)), (1500, 3000, 2, None)],
+                                         "groups": [[0, 1, 2, 3]]}}
+WITNESS_SINGLES_SAME_PRODUCT = {"fn": 4, "args": {"config": {"n": 400, "circular": False, "genes": [],
+                                                             "protos": [(0, [(100, 200, 1)], [(110, 120, 1)], 0),
+                                                                        (1, [(100, 200, 1)], [(170, 180, 1)], 0),
+                                                                        (2, [(150, 300, 1)], [(250, 260, 1)], 2)]},
+                                                  "order": [0, 1, 2]}}
+WITNESSES = [WITNESS_UNIQUE, WITNESS_SINGLES, WITNESS_SAME_PRODUCT, WITNESS_UNIQUE_CORE, WITNESS_SINGLES_SAME_PRODUCT]
 
 
 def formation_ties(config):
@@ -699,7 +730,8 @@ def run(chk):
                 continue
             differing = [k for k in sorted(set(dumps_a) | set(dumps_b)) if dumps_a.get(k) != dumps_b.get(k)]
             klass = None
-            if fn == 5 and not base["extra"].get("crossing") and len({(s, e) for s, e, _ in case["args"]["protos"]}) != len(case["args"]["protos"]):
+            if fn == 5 and not base["extra"].get("crossing") \
+                    and len({(spec[0], spec[1]) for spec in case["args"]["protos"]}) != len(case["args"]["protos"]):
                 klass = "unique_protoclusters_set_order"
             elif fn == 4 and formation_ties(case["args"]["config"]) and len(outputs_a) == len(outputs_b) == 1 \
                     and only_tied_singles_moved(outputs_a[0], outputs_b[0]):
@@ -750,7 +782,8 @@ def run(chk):
         if model == out:
             continue
         if fn == 4 and formation_ties(cases[idx]["args"]["config"]) and only_tied_singles_moved(out, model):
-            # recorded class: the model iterates set(unassigned) in ascending id, the interpreter by address
+            # class single_candidates_set_order (repaired: the loop iterates _ordered(set(unassigned)), in the model as in
+            # the code); tolerated only if the class is recorded as known again
             membership += 1
             if "single_candidates_set_order" in known:
                 continue
